@@ -801,6 +801,43 @@ func checkC17(c *Ctx, r *Report) {
 	}
 
 	ruleEarlyExitInventory(c, r, "C17.c", 8, "graphs")
+	// a symbol is the same symbol across file versions: the graph identifies nodes by BaseId
+	// (or SymbolKey.Equals). A raw `==` on two SymbolKey values also compares the file version, so
+	// a view that uses it disagrees with the other views as soon as a file is re-visited.
+	{
+		reviewed := map[string]string{
+			"(*graphs/symboldg.SymbolGraph).parentsUnsorted":   "matches the targets of stored edges against the node's stored Id: both were written by the same AddEdge/addNode round",
+			"(*graphs/symboldg.SymbolGraph).parentsSorted":     "as parentsUnsorted",
+			"(*graphs/symboldg.SymbolGraph).getTypeParamIndex": "matches an edge target against the operand keys of the composite the edge starts at: written together when the composite was inserted",
+		}
+		viol := ""
+		var sites []string
+		for _, fn := range w.SSAFuncs {
+			if fn.Pkg == nil || short(fn.Pkg.Pkg.Path()) != pkgSdg {
+				continue
+			}
+			allInstrsLocal(fn, false, func(f *ssa.Function, _ *ssa.BasicBlock, _ int, ins ssa.Instruction) {
+				bo, ok := ins.(*ssa.BinOp)
+				if !ok || (bo.Op != token.EQL && bo.Op != token.NEQ) {
+					return
+				}
+				nt, ok := bo.X.Type().(*types.Named)
+				if !ok || nt.Obj().Name() != "SymbolKey" || nt.Obj().Pkg() == nil || short(nt.Obj().Pkg().Path()) != "graphs" {
+					return
+				}
+				sites = append(sites, w.pos(bo.Pos()))
+				for _, h := range hostParts(fnShort(f)) {
+					if _, ok := reviewed[h]; !ok {
+						viol = fmt.Sprintf("%s: %s compares two SymbolKey values with `%s`, which includes the file version; the other views of the graph (nodes, lookupKeys, Exists, Get, edges) identify a symbol by BaseId, so after a file is re-visited this view drops or duplicates what the others still show", w.pos(bo.Pos()), h, bo.Op)
+					}
+				}
+			})
+		}
+		if len(sites) == 0 {
+			sites = []string{pkgSdg + ":0"}
+		}
+		r.add("C17.d", "vocabulary", "symbolkey-raw-equality", "raw `==` between SymbolKey values occurs only at the reviewed sites; elsewhere identity is BaseId / Equals", keysOf(reviewed), sites, viol)
+	}
 	// every element filter in these packages is a reviewed one
 	ruleSkipInventory(c, r, "C17.d", loadSkipTable(c.VerifDir), 8, "graphs")
 }
